@@ -3,6 +3,7 @@
 mod engines;
 mod findings;
 mod ids;
+mod keys;
 mod props;
 mod refmodel;
 mod runner;
@@ -80,6 +81,7 @@ fn main() {
     let code = match cli.prop.as_str() {
         "C07" => dispatch::<props::c07::C07>(&cli),
         "C08" => dispatch::<props::c08::C08>(&cli),
+        "C16" => dispatch::<props::c16::C16>(&cli),
         other => {
             println!("INCONCLUSIVE {other}: no such check");
             2
